@@ -104,6 +104,9 @@ func (sc *Scheduler) Schedule(ctx context.Context, g *ExecutionGraph, done chan 
 
 	var wg = sync.WaitGroup{}
 
+	// The lifecycle handlers run with the context of the whole run, not with
+	// the steps' deadline: after a DAG timeout they must still be executed.
+	handlerCtx := ctx
 	var cancel context.CancelFunc
 	if sc.timeout > 0 {
 		ctx, cancel = context.WithTimeout(ctx, sc.timeout)
@@ -277,7 +280,7 @@ func (sc *Scheduler) Schedule(ctx context.Context, g *ExecutionGraph, done chan 
 			n.data.Step.OutputVariables = g.outputVariables
 			n.mu.Unlock()
 
-			if err := sc.runHandlerNode(ctx, n); err != nil {
+			if err := sc.runHandlerNode(handlerCtx, n); err != nil {
 				sc.setLastError(err)
 			}
 			if done != nil {
